@@ -331,6 +331,21 @@ Proof.
   rewrite (meta_disables_all cfg f (d_code d) Hm) in Hon. discriminate.
 Qed.
 
+(** every spelling of the tag makes a file of a workspace a meta file *)
+Lemma meta_tag_sets_flag : forall tag, tag <> NoMetaTag -> meta_flag_of_tag true tag = true.
+Proof.
+  intros [| |n] H; [contradiction|reflexivity|].
+  unfold meta_flag_of_tag. destruct (existsb (String.eqb n) meta_special_names); reflexivity.
+Qed.
+
+Lemma meta_tag_silent : forall tr cfg f ks ds tag,
+  tag <> NoMetaTag -> f_meta f = meta_flag_of_tag true tag ->
+  diagnose_file tr cfg f ks = Some ds -> ds = [].
+Proof.
+  intros tr cfg f ks ds tag Ht Hf H. apply (meta_silent tr cfg f ks ds); [|exact H].
+  rewrite Hf. apply meta_tag_sets_flag. exact Ht.
+Qed.
+
 (** Sentence 6. *)
 Lemma enable_false_silent : forall tr cfg f ks, cfg_enable cfg = false -> diagnose_file tr cfg f ks = None.
 Proof. intros tr cfg f ks H. unfold diagnose_file. rewrite H. reflexivity. Qed.
